@@ -1,4 +1,48 @@
+import LdarModel.Model.Heap
 import LdarModel.Driver.Proto
-/- driver stub: replaced by the component's real driver -/
-open LdarModel.Proto
-def main : IO Unit := runDriver (fun (_ : Unit) (_ : List String) => ((), "bad-op")) ()
+/-
+Driver for the pending-list / cursor model (C01).
+  reset                                   -> ok
+  src [[id,start],...]                    -> ok      (append a source; list in pop order)
+  day <day>                               -> per source "[ids activated]" joined by ';' (state advances)
+  run <N> <copied|shared> [[p,..],[..]]   -> per program "p=[[ids of source 0],[..]]" joined by ' '
+                                             (from the sources as first given, not the advanced state)
+  expected <N>                            -> "[[ids],[..]]"
+-/
+open LdarModel LdarModel.Heap LdarModel.Proto
+
+structure DS where
+  g : Store := []       -- as loaded
+  cur : Store := []     -- advanced by `day`
+
+def parseEm (s : String) : Option EmId := do
+  match ← intList? s with
+  | [i, st] => if i < 0 then none else some { id := i.toNat, start := st }
+  | _ => none
+
+def showIds (l : List EmId) : String := showList (fun e => toString e.id) l
+def showSeen (l : List (List EmId)) : String := showList showIds l
+
+def step (s : DS) (toks : List String) : DS × String :=
+  match toks with
+  | ["reset"] => ({}, "ok")
+  | ["src", l] => match listOf? parseEm l with
+    | some ems => ({ g := s.g ++ [{ pending := ems }], cur := s.cur ++ [{ pending := ems }] }, "ok")
+    | none => (s, "bad-op")
+  | ["day", d] => match int? d with
+    | some d =>
+      let r := s.cur.map (activateSrc d)
+      ({ s with cur := r.map (·.2) }, ";".intercalate (r.map (fun x => showIds x.1)))
+    | none => (s, "bad-op")
+  | ["run", n, m, ws] =>
+    match nat? n, (if m = "copied" then some Mode.copied else if m = "shared" then some Mode.shared else none),
+          listOf? natList? ws with
+    | some n, some m, some ws =>
+      (s, " ".intercalate ((runSchedule m n ws s.g).map (fun x => s!"{x.1}={showSeen x.2}")))
+    | _, _, _ => (s, "bad-op")
+  | ["expected", n] => match nat? n with
+    | some n => (s, showSeen (expected n s.g))
+    | none => (s, "bad-op")
+  | _ => (s, "bad-op")
+
+def main : IO Unit := runDriver step {}
